@@ -1622,3 +1622,7 @@ mod tests {
         );
     }
 }
+
+#[cfg(feature = "pendulum_project_ntpd_rs_verif")]
+#[path = "/verif/hooks/statime-algo/filter.rs"]
+pub mod vh_filter;
